@@ -134,6 +134,13 @@ Theorem C06_same_site_absolute_partial : forall hosts hh t u h rec,
 Proof. exact route_same_site_absolute. Qed.
 Print Assumptions C06_same_site_absolute_partial.
 
+(* The 301 that gorilla's path cleaning answers to an origin-form target (e.g. "//evil.com") is
+   same-site as well. *)
+Theorem C06_clean_redirect_same_site : forall hosts hh t loc,
+  has_prefix t [47] = true -> route hosts hh t = RCleanRedirect loc -> same_site_rel loc = true.
+Proof. exact clean_redirect_same_site. Qed.
+Print Assumptions C06_clean_redirect_same_site.
+
 (* the two string lemmas the above rests on, over all byte strings *)
 Theorem C06_clean_no_double_slash : forall p, nds (clean_path p) = true.
 Proof. exact clean_path_no_double_slash. Qed.
